@@ -2,9 +2,9 @@
    Only statements, [exact]s and Print Assumptions live here.
    Model: Model/Validator.v (lvs_validator + CascadeChecker of the FIXED code: own default key storage per
    instance, Ed25519 branch).  Specification: Spec/ChainSpec.v.  *)
-From NDN Require Import Base.Prelude Model.Validator Spec.ChainSpec.
+From NDN Require Import Base.Prelude Model.Validator Model.ValidatorConc Spec.ChainSpec.
 From NDN Require Import Proofs.ValidatorProofs Proofs.ValidatorHistory Proofs.ValidatorTie Proofs.ValidatorExamples
-  Proofs.ValidatorTrace.
+  Proofs.ValidatorTrace Proofs.ValidatorConcProofs.
 From NDN Require Generated.ValidatorConsts.
 From NDN Require Properties.C14Findings.   (* keeps the refutation witnesses checked on every run *)
 
@@ -109,6 +109,63 @@ Theorem C14_same_verdict w st1 st2 f1 f2 i1 i2 a b p s1 s2 r1 r2 t1 t2 :
 Proof. exact (same_verdict w st1 st2 f1 f2 i1 i2 a b p s1 s2 r1 r2 t1 t2). Qed.
 Print Assumptions C14_same_verdict.
 
+(* validations that OVERLAP IN TIME on one instance (Model/ValidatorConc.v: every validation is a coroutine that is
+   suspended while its certificate is fetched; the instance's key storage is what they share).  For every
+   interleaving of starts and fetch completions - single completions in any order, NDNApp's "one Data answers
+   every pending Interest of that name", time-outs - from any storage satisfying the invariant: a verdict,
+   once delivered, is accept <-> Chain for the packet that validation was started with. *)
+Theorem C14_concurrent_iff w c st evs th r :
+  cache_ok w (trust_of c) st ->
+  In th (cs_threads (cfinal w c (cinit st) evs)) -> th_state th = TDone r -> r <> Err EFuel ->
+  (r = Ok true <-> Chain w (trust_of c) (th_pkt th)).
+Proof. exact (fun H => conc_iff w c (cinit st) evs th r (cinit_ok w c st H)). Qed.
+Print Assumptions C14_concurrent_iff.
+Example C14_concurrent_iff_nonvacuous :
+  cs_threads (cfinal ex_world cfg1 (cinit []) [CStart P; CStart P]) =
+    [ {| th_pkt := P; th_state := TWait [(P, nC)]; th_sent := [nC] |};
+      {| th_pkt := P; th_state := TWait [(P, nC)]; th_sent := [nC] |} ] /\
+  cs_threads (cfinal ex_world cfg1 (cinit []) [CStart P; CStart P; CDeliver nC; CStart P]) =
+    [ ex_thread_P; ex_thread_P; {| th_pkt := P; th_state := TDone (Ok true); th_sent := [] |} ].
+Proof. exact (conj (f_equal cs_threads ex_conc_waiting) (f_equal cs_threads ex_conc_overlap)). Qed.
+
+(* ... the storage invariant holds after every event, the k-th validation keeps asking about its own packet, and a
+   verdict that was delivered is never revised *)
+Theorem C14_concurrent_invariant w c st evs :
+  cache_ok w (trust_of c) st ->
+  Forall (fun cs => cache_ok w (trust_of c) (cs_cache cs)) (crun w c (cinit st) evs) /\
+  forall evs' tid th, nth_error (cs_threads (cfinal w c (cinit st) evs)) tid = Some th ->
+    exists th', nth_error (cs_threads (cfinal w c (cfinal w c (cinit st) evs) evs')) tid = Some th' /\
+                th_pkt th' = th_pkt th /\ forall r, th_state th = TDone r -> th_state th' = TDone r.
+Proof.
+  exact (fun H => conj (Forall_impl _ (fun cs K => proj1 K) (crun_spec w c evs _ (cinit_ok w c st H)))
+                       (fun evs' => conc_stable w c _ evs' (proj1 (cfinal_spec w c evs _ (cinit_ok w c st H))))).
+Qed.
+Print Assumptions C14_concurrent_invariant.
+
+(* ... so the verdict does not depend on what else the instance (or another instance with the same anchor and
+   schema) has in flight, nor on the order in which the certificates arrive *)
+Theorem C14_schedule_independent w c1 c2 st1 st2 evs1 evs2 th1 th2 r1 r2 :
+  trust_of c1 = trust_of c2 ->
+  cache_ok w (trust_of c1) st1 -> cache_ok w (trust_of c2) st2 ->
+  In th1 (cs_threads (cfinal w c1 (cinit st1) evs1)) -> In th2 (cs_threads (cfinal w c2 (cinit st2) evs2)) ->
+  th_pkt th1 = th_pkt th2 ->
+  th_state th1 = TDone r1 -> th_state th2 = TDone r2 -> r1 <> Err EFuel -> r2 <> Err EFuel ->
+  (r1 = Ok true <-> r2 = Ok true).
+Proof.
+  exact (fun E H1 H2 => conc_same_verdict w c1 c2 _ _ evs1 evs2 th1 th2 r1 r2 E (cinit_ok w c1 st1 H1) (cinit_ok w c2 st2 H2)).
+Qed.
+Print Assumptions C14_schedule_independent.
+
+(* a validation that has the instance to itself, every fetch answered at once, is [validate] of Model/Validator.v:
+   the sequential theorems above are the special case "no overlap" of the concurrent model *)
+Theorem C14_alone_is_validate w c fuel st p r st' tr :
+  validate w c fuel st p = (r, st', tr) -> r <> Err EFuel ->
+  run_alone w c fuel st p = ({| th_pkt := p; th_state := TDone r; th_sent := tr |}, st').
+Proof. exact (alone_is_validate w c fuel st p r st' tr). Qed.
+Print Assumptions C14_alone_is_validate.
+Example C14_alone_is_validate_nonvacuous : run_alone ex_world cfg1 3 [] P = (ex_thread_P, [(nC, [13%N])]).
+Proof. exact ex_alone. Qed.
+
 (* triage of DESIGN 9b: only RSA / ECDSA / Ed25519 signatures can have a chain; an HMAC-, digest- or
    unknown-type packet is never accepted (the dropped HMAC result only ever yields "reject") *)
 Theorem C14_symmetric_never_accepted w t p :
@@ -141,7 +198,8 @@ Proof. exact (chainb_spec w t fuel p b). Qed.
 Print Assumptions C14_oracle_sound.
 
 (* tie to the source of this run (tools/gen_validator.py): _verify_sig branch table, fresh default storage,
-   fetch arguments and caught exceptions are the ones the model hard-wires *)
+   fetch arguments and caught exceptions are the ones the model hard-wires; an instance owns nothing but its
+   configuration and its key storage (what overlapping validations share in Model/ValidatorConc.v) *)
 Theorem C14_source_tie :
   (forall w k p, verify_sig w k p = match p_sig p with
                                     | None => Err EAttr
@@ -151,10 +209,11 @@ Theorem C14_source_tie :
    Generated.ValidatorConsts.lvs_default_storage_shared = false) /\
   Generated.ValidatorConsts.fetch_can_be_prefix = false /\
   Generated.ValidatorConsts.fetch_validated_by_next_level = true /\
-  Generated.ValidatorConsts.catches_nothing_else = true.
+  Generated.ValidatorConsts.catches_nothing_else = true /\
+  Generated.ValidatorConsts.instance_state_is_storage_only = true.
 Proof.
   exact (conj verify_sig_generated (conj default_storage_fresh
          (conj (proj1 (proj2 (proj2 fetch_shape))) (conj (proj1 (proj2 (proj2 (proj2 fetch_shape))))
-               (proj2 (proj2 (proj2 (proj2 (proj2 (proj2 (proj2 fetch_shape))))))))))).
+               (conj (proj2 (proj2 (proj2 (proj2 (proj2 (proj2 (proj2 fetch_shape))))))) instance_state))))).
 Qed.
 Print Assumptions C14_source_tie.
